@@ -44,12 +44,23 @@ func NewRolloutScn(c *vs.Case, o RolloutOpts) *Scn {
 	customPaths := c.Bool()
 	if customPaths {
 		s.Cfg.FieldPaths = []string{"spec.template"}
+		if !o.Small {
+			// several paths, some of them not set on the parent at all
+			switch c.Int(4) {
+			case 1:
+				s.Cfg.FieldPaths = []string{"spec.unset", "spec.template"}
+			case 2:
+				s.Cfg.FieldPaths = []string{"spec.template", "spec.unset.deeper"}
+			case 3:
+				s.Cfg.FieldPaths = []string{"spec.absent", "spec.template.v", "spec.template.metadata"}
+			}
+		}
 	}
 	n := 1 + c.Int(o.MaxChildren)
 	tpl := ChildTpl{Resource: "widgets", Labels: map[string]string{"app": "p1"},
 		Fields: map[string]any{"spec": map[string]any{"v": "$p:spec.template.v", "mode": "$p:spec.other"}}}
 	replicas := int64(0)
-	if o.Scale && customPaths && c.Bool() {
+	if o.Scale && c.Bool() {
 		tpl.Replicated = true
 		replicas = int64(n)
 	} else {
